@@ -52,6 +52,7 @@ func newEngine(P *Program, fn *ssa.Function, c *Contract, cf *ContractFile) *Eng
 	e.unmodelled = map[string]bool{}
 	e.ginfo = map[*ssa.Global]*gInfo{}
 	e.lockedOnce = map[string]bool{}
+	e.lockSnap = nil
 	e.freshObjs = map[string]bool{}
 	e.stableLoads = map[string]string{}
 	e.siteOrd = map[string]int{}
